@@ -68,12 +68,16 @@ class PureEval(object):
     # ------------------------------------------------------------------ entry
     def call(self, fnode, args, kwargs):
         a = fnode.args
-        if a.vararg or a.kwarg or a.kwonlyargs or a.posonlyargs:
+        if a.kwarg or a.kwonlyargs or a.posonlyargs:
             raise NotFoldable("helper signature not supported")
         if any(ast.unparse(d) not in ("staticmethod", "classmethod") for d in fnode.decorator_list):
             raise NotFoldable("decorated helper")
         names = [x.arg for x in a.args]
         env = {}
+        if a.vararg is not None:
+            # def helper(first, *rest): the surplus positional arguments
+            env[a.vararg.arg] = tuple(args[len(names):])
+            args = args[:len(names)]
         if len(args) > len(names):
             raise NotFoldable("too many arguments")
         for n, v in zip(names, args):
